@@ -99,7 +99,10 @@ P = {'id': 'C10',
                "are splice and assignment, PartialEq decides equality; the pinned tree's process abort in ensure_capacity is a refutation theorem. "
                'The models are tied to the code by replaying enumerated and generated histories in Coq (about 1500 per quick run) and comparing '
                'every return value, the multiset of destroyed elements, len, capacity, head/tail indices, strings and sorted views. The remaining '
-               'containers are decided by a boundary-biased differential oracle only (S-only).',
+               'containers are decided by a boundary-biased differential oracle only (S-only). The oracle also drives, inside the same histories, the '
+               'secondary entry points (aliases, ==, Debug, Index/IndexMut/get_mut/as_mut_slice/iter_mut, iterators, filling and preset constructors, '
+               'binary_search / range / find), element types i16, u128, a 24-byte struct and zero-sized ones, and sizes around 2^16, 2^20, the 64 KiB '
+               'mapping and the 2^24 length fields, described in the cases by numbers.',
  'level_note': 'Trusted: Coq kernel + vm_compute; hand-written models; harness generators, shadow Vec/VecDeque oracle and the drop-counting element '
                'type. Raw-pointer reads/writes are modelled as slot accesses with an explicit undefined-behaviour outcome.',
  'technique': 'Coq proof by simulation (abstraction relations R/F/V/W/SV/FV between buffer or arena + indices and lists) lifted to histories by '
